@@ -5,7 +5,7 @@ ENGINE = {"family": "engine", "admits": "EngineCorr.admits_engine", "model_obs":
 PROPS = {
     "C18": {
         "parts": [ENGINE],
-        "level_text": "Theorems C18_nonempty / C18_post_action / C18_default_edge_followed hold for every node kind, oracle (all user code), start state and fuel; the executable predicate spec_C18 is proved of every model observation and applied to the implementation's observations; the model is tied to the code by exhaustive enumeration of node kinds x post actions x empty-batch shapes (direct and as flow steps) with trace-equality against the model.",
+        "level_text": "Theorems C18_nonempty / C18_post_action / C18_default_edge_followed hold for every node kind, oracle (all user code), start state and fuel; the executable predicate spec_C18 is proved of every model observation and applied to the implementation's observations; the model is tied to the code by exhaustive enumeration of node kinds x post actions x empty-batch shapes (direct and as flow steps) with trace-equality against the model. Action names include whitespace-only ones (not empty, only looking it). The case files apply spec_C18x = spec_C18 and the routing machine of C03 (inside a flow the step after an empty action is the successor on the default action); C18_specx_holds_of_model.",
         "level_note": "Trusted: Coq kernel + vm_compute, the hand-written model (tied by correspondence, not derived from source), Go harness/emitter. Concurrent batches enter C18_nonempty through an arbitrary executor parameter; their correspondence is exercised by the batch family.",
         "explanation": "C18_nonempty proved for every node kind, oracle and fuel; correspondence: exhaustive "
                        "enumeration of node kinds x post actions x empty-batch shapes, direct and as flow steps",
@@ -52,7 +52,7 @@ PROPS["C03"] = {
 }
 PROPS["C10"] = {
     "parts": [ENGINE],
-    "level_text": "Theorem C10_flatten: at any nesting depth the run of a hierarchy of flows is a run of the flat stack machine (frames (flow, member); a flow that ends presents the action of the last node it executed to its parent, which is asked for (flow node, action) exactly as for a plain node), for every oracle, fuel and context of enclosing flows; C10_same_store: every prep/post callback at every depth receives the run's store. spec_C10 proved of the model and applied to the implementation; correspondence: nested chains (depth 1..4 x routing level x ending mode x action) and random hierarchies with reuse, nil edges, failures inside inner flows.",
+    "level_text": "Theorem C10_flatten: at any nesting depth the run of a hierarchy of flows is a run of the flat stack machine (frames (flow, member); a flow that ends presents the action of the last node it executed to its parent, which is asked for (flow node, action) exactly as for a plain node), for every oracle, fuel and context of enclosing flows; C10_same_store: every prep/post callback at every depth receives the run's store. spec_C10 proved of the model and applied to the implementation; correspondence: nested chains (depth 1..4 x routing level x ending mode x action) and random hierarchies with reuse, nil edges, failures inside inner flows. Every prep / post callback of a scenario writes a key of its own into the store and counts as having received 'the run's store' only if it is that store holding exactly the keys written so far (the engine never writes, removes or swaps).",
     "level_note": _T,
     "explanation": "simulation of the hierarchical engine by the flat stack machine, any depth",
     "assumptions": ["leaves have a prep and a post of their own so that visits are visible in the callback trace"],
@@ -74,20 +74,20 @@ PROPS["C06"] = {
 }
 PROPS["C07"] = {
     "parts": [_BATCH],
-    "level_text": "Theorems over ALL schedules: C07_item_processing_independent - in every reachable state the events made for item i are a prefix of a budget-exact processing of item i (the per-item monitor, which reads item i's events only, never rejects), so no other item can prevent, repeat or alter them; C07_slot_is_item_outcome; C07_one_worker_per_item (exactly once); C07_item_budget_exact (min(k,N) attempts, fallback iff all N failed, for the item loop). Correspondence: every assignment of {ok, fail-ok, fail-fail}^3 x fallback {default, user ok, user err} x N<=2 x c in {0,2} under several completion orders, random batches up to 64 items / 16 workers, full-trace equality.",
+    "level_text": "Theorems over ALL schedules: C07_item_processing_independent - in every reachable state the events made for item i are a prefix of a budget-exact processing of item i (the per-item monitor, which reads item i's events only, never rejects), so no other item can prevent, repeat or alter them; C07_slot_is_item_outcome; C07_one_worker_per_item (exactly once); C07_item_budget_exact (min(k,N) attempts, fallback iff all N failed, for the item loop). Correspondence: every assignment of {ok, fail-ok, fail-fail}^3 x fallback {default, user ok, user err} x N<=2 x c in {0,2} under several completion orders, budgets 3 and 4 with one and the same error value on consecutive attempts, random batches up to 64 items / 16 workers, full-trace equality.",
     "level_note": _TB, "explanation": "per-item monitor invariant for all schedules; exhaustive per-item script assignments",
     "assumptions": ["batch nodes have an exec function (has_exec)"],
 }
 PROPS["C08"] = {
     "parts": [_BATCH],
-    "level_text": "Theorems over ALL schedules: C08_upper - never more than `workers` exec calls (or tasks) in flight; C08_usable - in every reachable quiescent state (no step of the submitter or of a worker outside an exec call enabled) before the end, EVERY worker is inside an exec call or all n items have been handed out: c blocking executions do run simultaneously; C08_no_deadlock; workers = max 1 c. Correspondence: at every quiescent point of every gated run the set of exec calls in flight observed on the implementation equals the model's (both bounds exactly, no timing thresholds); c=0 runs must be strictly sequential in item order.",
+    "level_text": "Theorems over ALL schedules: C08_upper - never more than `workers` exec calls (or tasks) in flight; C08_usable - in every reachable quiescent state (no step of the submitter or of a worker outside an exec call enabled) before the end, EVERY worker is inside an exec call or all n items have been handed out: c blocking executions do run simultaneously; C08_no_deadlock; workers = max 1 c. Correspondence: at every quiescent point of every gated run the set of exec calls in flight observed on the implementation equals the model's (both bounds exactly, no timing thresholds); c=0 runs must be strictly sequential in item order; scenarios in which the controller sits on a quiescent point with a full queue for 150 ms (thorough: 1.2 s) before releasing anything (a Submit that gives up blocking after a while shows as an extra call in flight).",
     "level_note": _TB, "explanation": "structural bound + enabledness analysis of quiescent states; in-flight sets compared at every quiescent point",
     "assumptions": ["queue capacity > 0 (the code uses 2*workers)"],
 }
 PROPS["C09"] = {
     "parts": [_BATCH, {"family": "batchstress", "admits": "BatchStressCorr.spec_C09_stress", "model_obs": None, "timeout": 600}],
-    "level_text": "Theorems over ALL schedules: C09_stop_skips - once the stop flag is up, an item whose task has not passed its stop-flag check is never executed (its events stay empty for every continuation of every schedule), so only tasks already received by the other workers can still run; C09_stop_flag_permanent; C09_no_fake_success - for every mode and schedule the slot of an item without events is an error slot. Correspondence: first failing item at every position for n<=8 (quick) / 16, c in 0..4, both modes, failing item released first / last / randomly; spec_C09 walks the implementation's trace (after the final failure only calls of items in flight at the last quiescent point may appear). Second part, free-running (ungated) stop-mode batches of 200 000 (quick) / 400 000 items with 2..8 workers: the first workers-1 items are held in flight until 20..60 ms after an early item failed while the queue takes several times longer to drain; judged by 'at most workers-1 executed items have a larger index than a skipped item', plus no fake success, own result per executed item, one post with n results.",
-    "level_note": _TB + " The free-running part is sound only under a timing assumption (DESIGN.md 14.5): the worker that ran the failing item is not suspended for more than the release delay between returning from the item's processing and taking the mutex. Under it the bound follows from C09_stop_skips, C09_stop_flag_permanent and C07_one_worker_per_item by an argument on paper. Which interleavings the free runs reach is up to the Go scheduler.",
+    "level_text": "Theorems over ALL schedules: C09_stop_skips - once the stop flag is up, an item whose task has not passed its stop-flag check is never executed (its events stay empty for every continuation of every schedule), so only tasks already received by the other workers can still run; C09_stop_flag_permanent; C09_no_fake_success - for every mode and schedule the slot of an item without events is an error slot. Correspondence: first failing item at every position for n<=8 (quick) / 16, c in 0..4, both modes, failing item released first / last / randomly; spec_C09 walks the implementation's trace (after the final failure only calls of items in flight at the last quiescent point may appear). Second part, free-running (ungated) stop-mode batches of 200 000 (quick) / 400 000 items with two workers: item 0 is held in flight until 20..60 ms after one of items 1..3 failed while the queue takes several times longer to drain; judged by 'no executed item (at most one) has a larger index than a skipped item', plus no fake success, own result per executed item, one post with n results.",
+    "level_note": _TB + " For two workers and exactly one failing item the bound of the free-running part holds for every schedule, by an argument on paper from C09_stop_flag_permanent and C07_one_worker_per_item (DESIGN.md 14.5), not machine-checked. Which interleavings the free runs reach is up to the Go scheduler.",
     "explanation": "unstarted-items invariant for all continuations; stop position sweep",
     "assumptions": [],
 }
@@ -134,7 +134,7 @@ PROPS["C19"] = {
 PROPS["C12"] = {
     "parts": [{"family": "pool", "admits": "PoolCorr.admits_pool", "model_obs": None, "timeout": 600},
               {"family": "poolstress", "admits": "PoolCorr.spec_C12_stress", "model_obs": None, "race": True, "timeout": 900}],
-    "level_text": "Theorems for every schedule of any number of submitting goroutines with any operation lists (Submit / Wait / Close, any number of rounds), any number of workers and queue capacity: C12_conservation (every task for which wg.Add ran is in exactly one place - waiting to be sent, queued, running, finished; the counter counts the unfinished ones), C12_exactly_once, C12_barrier (Wait can return only at counter 0, and then every task added so far by any submitter has finished), C12_blocks_not_drops (a full queue disables the send), C12_close (after Close every idle worker can leave). Correspondence: gated single-submitter operation lists on the real pool (sizes -1..16, task counts beyond the queue, repeated rounds, Wait on idle pool / with tasks in flight) whose log of quiescent running-sets, task ends and Wait returns must equal the model's; race-detector stress runs with 1..4 submitters judged by counters (exactly once, barrier with plain writes, running <= workers, no worker goroutine after Close).",
+    "level_text": "Theorems for every schedule of any number of submitting goroutines with any operation lists (Submit / Wait / Close, any number of rounds), any number of workers and queue capacity: C12_conservation (every task for which wg.Add ran is in exactly one place - waiting to be sent, queued, running, finished; the counter counts the unfinished ones), C12_exactly_once, C12_barrier (Wait can return only at counter 0, and then every task added so far by any submitter has finished), C12_blocks_not_drops (a full queue disables the send), C12_close (after Close every idle worker can leave). Correspondence: gated single-submitter operation lists on the real pool (sizes -1..16, task counts beyond the queue, repeated rounds, Wait on idle pool / with tasks in flight) whose log of quiescent running-sets, task ends and Wait returns must equal the model's; at every quiescent point the number of Submit calls that have returned is noted and must fit (returned - ended <= workers + queue: C12_outstanding_bounded, for every schedule); race-detector stress runs with 1..4 submitters judged by counters (exactly once, barrier with plain writes, running <= workers, no worker goroutine after Close); Wait called while a task is held in flight and a second goroutine submits and completes further tasks must not return before the held task is let go.",
     "level_note": _T + " The orderings inside Submit (Add before send) and inside the worker's select cannot be forced on the code; they are proved on the model and only sampled by the stress runs. The happens-before edge Done -> Wait is sync.WaitGroup's (assumed, exercised by the race detector). Goroutine termination after Close is observed, not proved, on the code side.",
     "explanation": "conservation invariant with Permutation for all schedules; gated operation lists; race-detector stress",
     "assumptions": ["task identities are pairwise distinct"],
